@@ -1262,7 +1262,9 @@ def check_library(ctx, work, tag, lib, funcs, cxx, configs, workers=8, force=Fal
         cfgname = {"language": "c++" if cxx else "c", "F_CFI": bool(cfi), "debug": bool(dbg), "defined_macros": list(macros)}
         if stage != "run":
             # which function?  C05 owns compilability; here it is reported because the call cannot be made at all
-            m = re.search(r"(fn\d+|k\d+|r\d+|dflt|ov)\w*", out or "")
+            fnames = sorted({f.name for f in (funcs_cfi if cfi else all_funcs)}, key=len, reverse=True)
+            m = re.search(r"(?:call |= |‘|')(%s)\b" % "|".join(map(re.escape, fnames)), out or "") or \
+                re.search(r"\b(%s)\b" % "|".join(map(re.escape, fnames)), out or "")
             fl = funcs_cfi if cfi else all_funcs
             signame = m.group(1) if m else (fl[0].name if len(fl) == 1 else None)
             key = "c01:%s-fails:%s:%s" % (stage, "cxx" if cxx else "c", _sig_of(fl, signame) if signame else "?")
